@@ -605,7 +605,10 @@ func collectNameAgreement(pk *packages.Package) (checked int, bad []nameMismatch
 							plain = false
 						}
 					}
-					if !plain {
+					// …or configuration structs (name ends in Config), whose exported fields are plain data even when
+					// the struct carries a few unexported extras
+					isConfig := strings.HasSuffix(src.Obj().Name(), "Config") && ast.IsExported(se.Sel.Name)
+					if !plain && !isConfig {
 						continue
 					}
 					checked++
@@ -615,6 +618,9 @@ func collectNameAgreement(pk *packages.Package) (checked int, bad []nameMismatch
 					// does src have a field named like the destination, with the type of the field used?
 					for i := 0; i < sst.NumFields(); i++ {
 						sf := sst.Field(i)
+						if !plain && !sf.Exported() {
+							continue
+						}
 						if normField(sf.Name()) == normField(kid.Name) && types.Identical(sf.Type(), sel.Type()) {
 							bad = append(bad, nameMismatch{Fn: fd.Name.Name, Dst: dst, DstField: kid.Name, Src: src, SrcField: se.Sel.Name, Pos: kv.Pos()})
 						}
